@@ -39,6 +39,9 @@ impl Harness for C09 {
         let jobs = {
             let mut j: Vec<Job> = jobs;
             j.insert(0, Job::new("builders", json!({"kind": "builders"})));
+            for i in 0..mc_sc::entry::n_parts("C09") {
+                j.insert(1 + i, Job::new(format!("entry-{}", i), json!({"kind": "entry", "part": i})));
+            }
             j
         };
         Plan {
@@ -48,10 +51,12 @@ impl Harness for C09 {
             floors: {
                 let mut f = floors;
                 f.push(("builder_chains", 5));
+                f.push(("entry_cases", 1000));
                 f
             },
             bounds: json!({
                 "builders": mc_sc::builders::BOUNDS,
+                "entry_paths": mc_sc::entry::BOUNDS,
                 "logistic": logit::bounds(t, seed),
                 "lbfgs_quadratics": quad::bounds(t),
             }),
@@ -59,6 +64,9 @@ impl Harness for C09 {
     }
 
     fn run(&self, job: &Job) {
+        if job.kind() == "entry" {
+            return mc_sc::entry::run_part("C09", job.u("part"));
+        }
         match job.kind() {
             "quad" => quad::run(job),
             "multiset" | "sequence" | "structured" => logit::run(job),
